@@ -254,7 +254,7 @@ class Term:
         # f(x) + (y + z) -> f(x) + y + z
         if self == other:
             return self
-        elif isinstance(other, type(self)):
+        elif isinstance(other, (type(self), GroupSpecificTerm)):
             return Model(self, other)
         elif isinstance(other, Model):
             return Model(self) + other
@@ -283,6 +283,8 @@ class Term:
                 return Model()
             else:
                 return self
+        elif isinstance(other, GroupSpecificTerm):
+            return self
         else:  # pragma: no cover
             return NotImplemented
 
@@ -626,6 +628,32 @@ class GroupSpecificTerm:
 
     def __hash__(self):
         return hash((self.expr, self.factor))
+
+    def __add__(self, other):
+        """Addition operator. Analogous to set union.
+
+        * ``"(x|g) + (x|g)"`` is equal to just ``"(x|g)"``
+        * ``"(x|g) + y"`` and ``"(x|g) + (y + z)"`` add the group-specific term to the other terms.
+        """
+        if self == other:
+            return self
+        elif isinstance(other, (Term, GroupSpecificTerm, Intercept)):
+            return Model(self, other)
+        elif isinstance(other, Model):
+            return Model(self) + other
+        else:  # pragma: no cover
+            return NotImplemented
+
+    def __sub__(self, other):
+        """Subtraction operator. Analogous to set difference.
+
+        * ``"(x|g) - (x|g)"`` returns empty model.
+        * ``"(x|g) - y"`` returns the term ``"(x|g)"``.
+        """
+        if isinstance(other, (Term, GroupSpecificTerm, Intercept, Model)):
+            return Model(self) - other
+        else:  # pragma: no cover
+            return NotImplemented
 
     def __repr__(self):  # pragma: no cover
         return self.__str__()
